@@ -91,6 +91,9 @@ theorem earlyExitSites_reviewed : CV.Gen.Static.earlyExitSites = CV.Det.Spec.rev
 /-- the package-level variables written outside `init` are exactly the reviewed ones -/
 theorem globalWrites_reviewed : CV.Gen.Static.globalWrites = CV.Det.Spec.reviewedGlobalWrites := by decide
 
+/-- the package-level variables of the library (any state that could survive a load) are exactly the reviewed ones -/
+theorem packageVars_reviewed : CV.Gen.Static.packageVars = CV.Det.Spec.reviewedPackageVars := by decide
+
 /-- the `range` statements the translator could not type are exactly the reviewed ones (none of them hides a map
 whose order leaks: they are analysed as if they ranged over maps, see the `?`-rows of the two lists above) -/
 theorem untypedRangeSites_reviewed : CV.Gen.Static.untypedRangeSites = CV.Det.Spec.reviewedUntypedRangeSites := by decide
